@@ -142,8 +142,8 @@ DEQUE_UNITS += [
 ]
 
 DEQUE_UNITS += [
-    Unit("deque.seq.b4", "deque.c", defines=["U_SEQ"], kind="bounded", unwind=3, loop_contracts=False, no_replay=True,
-         extra_flags=["--unwindset", "harness.0:6,harness.1:6"],
+    Unit("deque.seq.b4", "deque.c", defines=["U_SEQ"], kind="bounded", unwind=2, loop_contracts=False, no_replay=True,
+         extra_flags=["--unwindset", "harness.0:257,run_sequence.0:5,run_sequence.1:5"],
          lifts=deque_lifts(which=["pop_left", "pop_right", "push_left", "push_right", "empty"]),
          funcs=[_F + "push_left, push_right, pop_left, pop_right, stabilize, stabilize_left, stabilize_right, dealloc_node, empty"],
          doc="BOUNDED, single thread, no interference: all operation sequences of length <= 4 plus drain, array-backed LIFO freelist of "
